@@ -99,6 +99,30 @@ func buildWorker(race bool) (string, error) {
 	if b, err := os.ReadFile("/repo/go.sum"); err == nil {
 		os.WriteFile(filepath.Join(root, "go.sum"), b, 0o644)
 	}
+	// VERIF_REPO=<dir>: build against another checkout of the module (scratch
+	// worktrees used for sensitivity experiments); the registered commands never set it
+	if alt := os.Getenv("VERIF_REPO"); alt != "" {
+		gm, err := os.ReadFile(filepath.Join(root, "go.mod"))
+		if err != nil {
+			return "", err
+		}
+		altMod := filepath.Join(root, "build", "alt.mod")
+		os.WriteFile(altMod, []byte(strings.Replace(string(gm), "=> /repo", "=> "+alt, 1)+"\n"), 0o644)
+		alt2 := strings.Replace(string(gm), "=> /repo", "=> "+alt, 1)
+		alt2 = strings.Replace(alt2, "=> ./third_party/porcupine", "=> "+filepath.Join(root, "third_party/porcupine"), 1)
+		os.WriteFile(altMod, []byte(alt2), 0o644)
+		if b, err := os.ReadFile(filepath.Join(root, "go.sum")); err == nil {
+			os.WriteFile(filepath.Join(root, "build", "alt.sum"), b, 0o644)
+		}
+		out = strings.TrimSuffix(out, ".test") + "-alt.test"
+		for i, a := range args {
+			if a == "-o" {
+				args[i+1] = out
+			}
+		}
+		args = append(args[:1], append([]string{"-modfile=" + altMod}, args[1:]...)...)
+		fmt.Printf("NOTE: building against %s instead of /repo (VERIF_REPO)\n", alt)
+	}
 	cmd := exec.Command(goBin, args...)
 	cmd.Dir = root
 	cmd.Env = goEnv()
@@ -427,7 +451,7 @@ func cmdCheck(args []string) int {
 		fmt.Fprintln(os.Stderr, err)
 		return 2
 	}
-	fmt.Printf("worker built from /repo working tree in %s\n", fmtDur(time.Since(start)))
+	fmt.Printf("worker built in %s\n", fmtDur(time.Since(start)))
 	rdir := raceDir()
 	if pc.race {
 		cleanDir(rdir)
@@ -445,7 +469,12 @@ func cmdCheck(args []string) int {
 	var infra []string
 	var samples []interface{}
 	runStart := time.Now()
+	done := 0
 	err = runJobs(cfg, nw, jobs, func(j *Job, r *EpisodeResult) {
+		done++
+		if done%100000 == 0 {
+			fmt.Printf("  ... %d/%d episodes, %s\n", done, n, fmtDur(time.Since(runStart)))
+		}
 		digests[j.ID] = r.Digest
 		cl := classOf(r)
 		verdicts[j.ID] = cl
